@@ -391,11 +391,12 @@ theorem visitUse_eq (g : Globals) (lang : Option Lang) (st : Stacks) (env : Env)
     | vars => simp only []; rw [h.1]
     | funcs => simp only []; rw [h.2]
 
-theorem visitUses_eq (g : Globals) (lang : Option Lang) (st : Stacks) (env : Env) (h : Agree g st env) (us : List Use) :
-    us.map (visitUse g lang st) = us.map (specUse g lang env) := by
-  apply List.map_congr_left
-  intro u _
-  exact visitUse_eq g lang st env h u
+/-- the two resolvers look every identifier up alike, hence walk every expression alike -/
+theorem visitUses_eq (g : Globals) (lang : Option Lang) (st : Stacks) (env : Env) (h : Agree g st env)
+    (c : Option Name) (es : List Expr) :
+    walkExprs g lang (visitUse g lang st) c es = walkExprs g lang (specUse g lang env) c es := by
+  have : visitUse g lang st = specUse g lang env := funext (visitUse_eq g lang st env h)
+  rw [this]
 
 /-! ## Adding declarations to the top rib -/
 
@@ -594,6 +595,13 @@ theorem addItems_eq (vs frest : List Rib) :
       rw [ih, seenOf_push_funcs V F name (.decl id)]
       simp only [seenOf, itemNoun]
       rfl
+    | funcDecl id name qual params =>
+      simp only [addItems, addItemToScope, itemDecls, pushItems, reduceCtorEq, if_false, if_true, declEvents]
+      rw [addToRib_top .items .funcs .func rfl]
+      simp only []
+      rw [ih, seenOf_push_funcs V F name (.decl id)]
+      simp only [seenOf, itemNoun]
+      rfl
     | const vars =>
       obtain ⟨h1, h2⟩ := addConstVars_eq vs frest F vars V (itemDecls ss)
       simp only [addItems, addItemToScope, itemDecls]
@@ -698,7 +706,12 @@ theorem stmtOK_of_free (g : Globals) (s : Stmt) (h : FreeStmtOK g s) : StmtOK g 
   rw [List.cons_append] at h1
   exact ⟨L, h1, h2⟩
 
-theorem freeOK_expr (g : Globals) (us : List Use) : FreeStmtOK g (.expr us) := by
+theorem freeOK_funcDecl (g : Globals) (id : Nat) (name : Name) (qual : FuncQual) (params : List (Nat × Name)) :
+    FreeStmtOK g (.funcDecl id name qual params) := by
+  intro lang user fuser here hu hf
+  exact ⟨by simp only [visitStmt, specStmt], by simp only [specStmt]⟩
+
+theorem freeOK_expr (g : Globals) (us : List Expr) : FreeStmtOK g (.expr us) := by
   intro lang user fuser here hu hf
   have hag := agree_user g user fuser hu hf
   refine ⟨?_, by simp only [specStmt]⟩
@@ -745,7 +758,7 @@ theorem freeOK_const (g : Globals) (vars : List DeclVar) : FreeStmtOK g (.const 
   congr 1
   apply flatMap_congr_mem
   intro v _
-  exact visitUses_eq g none _ _ hag v.init
+  exact visitUses_eq g none _ _ hag none v.init
 
 theorem freeOK_func (g : Globals) (id : Nat) (name : Name) (qual : FuncQual) (params : List (Nat × Name))
     (body : List Stmt) (h : StmtsOK g body) : FreeStmtOK g (.func id name qual params body) := by
@@ -776,6 +789,7 @@ theorem visitStmt_eq (g : Globals) : ∀ (s : Stmt), StmtOK g s
     stmtOK_of_free g _ (freeOK_func g id name qual params body (visitStmts_eq g body))
   | .const vars => stmtOK_of_free g _ (freeOK_const g vars)
   | .script b => stmtOK_of_free g _ (freeOK_script g b (visitStmts_eq g b))
+  | .funcDecl id name qual params => stmtOK_of_free g _ (freeOK_funcDecl g id name qual params)
 theorem visitStmts_eq (g : Globals) : ∀ (ss : List Stmt), StmtsOK g ss
   | [] => by intro lang user fuser L _ _; simp [visitStmts, specStmts]
   | s :: ss => by
@@ -806,6 +820,7 @@ theorem freeOK_of_not_decl (g : Globals) (s : Stmt) (h : s.isDecl = false) : Fre
   | func id name qual params body => exact freeOK_func g id name qual params body (visitStmts_eq g body)
   | const vars => exact freeOK_const g vars
   | script b => exact freeOK_script g b (visitStmts_eq g b)
+  | funcDecl id name qual params => exact freeOK_funcDecl g id name qual params
 
 /-- a list of statements without local declarations, on any stack of user ribs (the file level) -/
 theorem visitStmts_free (g : Globals) : ∀ (ss : List Stmt), (∀ s ∈ ss, s.isDecl = false) →
